@@ -249,5 +249,14 @@ func ShrinkScript(s Script) []Script {
 		c.T0 = s.T0 - 1
 		out = append(out, c)
 	}
+	// keep a shrink round cheap: the halving candidates come first, single removals are sampled
+	if len(out) > 90 {
+		keep := out[:10:10]
+		step := (len(out) - 10 + 79) / 80
+		for i := 10; i < len(out); i += step {
+			keep = append(keep, out[i])
+		}
+		out = keep
+	}
 	return out
 }
